@@ -286,7 +286,8 @@ def cases(rng, chk, algs, thorough, exh_algs=None, exh_depth=3):
         chk.bump("random-history")
     for alg, B, hl in (exh_algs or []):
         n0 = len(out)
-        out += list(exhaustive_histories(alg, B, hl, exh_depth + (1 if thorough else 0)))
+        # one more level in the thorough tier for one algorithm per family (the dispatcher is shared)
+        out += list(exhaustive_histories(alg, B, hl, exh_depth + (1 if thorough and alg in ("md5", "sha3-256") else 0)))
         chk.bump("exhaustive-history", len(out) - n0)
     p = par_cases(rng, algs, 3 if thorough else 1)
     chk.bump("threads-own-objects", len(p))
